@@ -331,6 +331,37 @@ Definition configure (e : cexpr) (cfg : config) : option expr :=
   | Some st => Some (erase (index_in cs st) e)
   end.
 
+(* ------------------------------------------------ histories
+   Controller objects live longer than formulas: U is the (sorted) tuple of every controller alive,
+   st their current indices.  Catalogs and formulas may be created at any time; they hold no state
+   of their own (Catalog.selected reads controlled_by.current_index when it is called), so a formula
+   is a value and what it shows depends on the controllers' state only. *)
+
+(* Controller.set_index -- the only assignment to current_index (set_name, reset_selection,
+   modify_controller, CentralController.set_configuration / set_controller, the operators and the
+   iterator all go through it).  None = BiogemeError (unknown controller or index out of range). *)
+Definition set_index (U : list controller) (st : cstate) (n : string) (i : Z) : option cstate :=
+  if existsb (fun c => String.eqb (fst c) n && (0 <=? i) && (i <? Z.of_nat (List.length (snd c)))) U
+  then Some (map (fun ci => if String.eqb (fst (fst ci)) n then i else snd ci) (combine U st))
+  else None.
+
+(* a history of successful index assignments, interleaved with anything that creates objects *)
+Fixpoint run_sets (U : list controller) (st : cstate) (h : list (string * Z)) : option cstate :=
+  match h with
+  | [] => Some st
+  | (n, i) :: r => match set_index U st n i with Some st' => run_sets U st' r | None => None end
+  end.
+
+(* Expression.current_configuration() of a formula whose controllers belong to U *)
+Definition current_configuration (U : list controller) (st : cstate) (e : cexpr) : config :=
+  map (fun c => (fst c, match index_in U st (fst c) with
+                        | Some i => nth_Z EmptyString (snd c) i
+                        | None => EmptyString
+                        end)) (central e).
+
+(* the formula as read through its catalogs in the state st *)
+Definition read (U : list controller) (st : cstate) (e : cexpr) : expr := erase (index_in U st) e.
+
 (* name of the member selected in every catalog, with the catalog's controller *)
 Fixpoint selected_names (ix : string -> option Z) (e : cexpr) : list (string * option string) :=
   match e with
